@@ -132,6 +132,7 @@ def run(ch, ctx, fault=None):
 
     def on_sleep(secs):
         j = len(shown)
+        check(j < 500, "animation_did_not_end", dict(info, sleeps=j), "animate")
         top = r0 - s_anim
         f = seq[j] if j < len(seq) else None
         shown.append(f)
